@@ -1,7 +1,7 @@
 # -*- coding: utf-8 -*-
 r"""C09 - parsing is a pure function of input, context and flags.
 
-ES over call histories: every sequence of length <= h over a menu of 14 parse calls chosen
+ES over call histories: every sequence of length <= h over a menu of 19 parse calls chosen
 so that every shared mutable object (process-wide cache of standard argument parsers, each
 parser's lazily built inner parser, the cached default context, one custom context shared
 by all walkers of a history) is touched from different calls.  The state is the history
@@ -42,6 +42,11 @@ MENU = [
     (r'c \xitem[b] \pm{y}~', 'X', False),
     (r'\section* [s]{T}\cite[a] [b]{k}', 'D', False),
     (r'$$a\\ [A]\\* [B]$$ \item [z]', 'D', False),
+    (r'\begin{foo}a\end{foo}', 'D', False),                                  # unknown environments (one shared fallback spec)
+    (r'\begin{bar}b\end{bar}\begin{foo}c\end{foo}', 'D', False),
+    (r'\begin{frac}x\end{frac}\sqrtx \begin{sqrt}y\end{sqrt}', 'D', False),  # names known as macros, used as environments
+    (r'$\me^{a}_b{c}$ \me_d{e}', 'A', False),                               # embellishment arguments
+    (r'\me{a}\me^b{c}', 'A', False),
 ]
 
 
